@@ -354,6 +354,64 @@ func ruleW1(r *Run) {
 				}
 				return true
 			})
+			// ... or the same comparison inside a boolean helper that is called with the count:
+			// a comparison of the helper's corresponding parameter with the bytes left (tail - head)
+			tailF := p.LookupField("io", "Decoder", "tail")
+			ast.Inspect(fd.Body, func(m ast.Node) bool {
+				call, ok := m.(*ast.CallExpr)
+				if !ok {
+					return true
+				}
+				d, cpkg := p.calleeDecl(info, call)
+				if d == nil {
+					return true
+				}
+				cinfo := cpkg.TypesInfo
+				var pv types.Object
+				params := paramsOf(cinfo, d.Type)
+				for i, a := range call.Args {
+					if identObj(info, a) == v && i < len(params) {
+						pv = params[i]
+					}
+				}
+				if pv == nil {
+					return true
+				}
+				defs := localDefs(cinfo, d.Body)
+				mentionsTail := func(e ast.Expr) bool {
+					found := false
+					var visit func(e ast.Node, depth int)
+					visit = func(e ast.Node, depth int) {
+						ast.Inspect(e, func(k ast.Node) bool {
+							if se, ok := k.(*ast.SelectorExpr); ok && fieldOf(cinfo, se) == tailF && tailF != nil {
+								found = true
+							}
+							if id, ok := k.(*ast.Ident); ok && depth < 3 {
+								if dd := defs[cinfo.Uses[id]]; dd != nil {
+									visit(dd, depth+1)
+								}
+							}
+							return true
+						})
+					}
+					visit(e, 0)
+					return found
+				}
+				ast.Inspect(d.Body, func(k ast.Node) bool {
+					be, ok := k.(*ast.BinaryExpr)
+					if !ok {
+						return true
+					}
+					switch be.Op {
+					case token.GTR, token.LEQ, token.LSS, token.GEQ:
+						if (identObj(cinfo, be.X) == pv && mentionsTail(be.Y)) || (identObj(cinfo, be.Y) == pv && mentionsTail(be.X)) {
+							okUpper = true
+						}
+					}
+					return true
+				})
+				return true
+			})
 			return true
 		})
 		r.Check(okLower && okUpper, "sanitiser io.Decoder.ReadCount bounds the count on both sides", fd.Pos(), "negative and (in-memory) oversized counts are rejected before the value is returned", "ReadCount no longer rejects negative counts and counts above the bytes left before returning the value: every list, map, string and argument count in the decoder is unchecked again")
